@@ -11,6 +11,7 @@ import (
 	"bytes"
 	"encoding/json"
 	"fmt"
+	"net"
 	"os"
 	"sort"
 	"sync"
@@ -666,4 +667,123 @@ func FuzzVerifC09EndToEnd(f *testing.F) {
 	c := ev.For("C09")
 	c.Rule("fuzz-end-to-end: the end-to-end property driven by the native coverage-guided fuzzer through rapid.MakeFuzz (thorough tier)")
 	f.Fuzz(rapid.MakeFuzz(func(rt *rapid.T) { vfC09Case(rt, c) }))
+}
+
+// ---- (d) paranoid mode, exhaustive over (one-entry table value, write size) ---------------------
+
+// vfLenSink is a net.Conn that only records the sizes of the writes it gets.
+type vfLenSink struct {
+	net.Conn
+	lens  []int
+	total int
+}
+
+func (s *vfLenSink) Write(b []byte) (int, error) {
+	s.lens = append(s.lens, len(b))
+	s.total += len(b)
+	if len(s.lens) > 200000 {
+		return 0, fmt.Errorf("verif: too many writes")
+	}
+	return len(b), nil
+}
+
+type vfParanoidPair struct {
+	V    int `json:"table_value"`
+	Size int `json:"write_size"`
+}
+
+func vfParanoidPairRun(seeds map[int][]byte, pp vfParanoidPair, zero *probdist.WeightedDist, key []byte) string {
+	sd, _ := drbg.SeedFromBytes(seeds[pp.V])
+	dist := probdist.New(sd, 0, framing.MaximumSegmentLength, false)
+	if tb := vfDistValues(dist); len(tb) != 1 || tb[0] != pp.V {
+		return "stale"
+	}
+	sink := &vfLenSink{}
+	conn := &obfs4Conn{Conn: sink, iatMode: iatParanoid, lenDist: dist, iatDist: zero, encoder: framing.NewEncoder(key)}
+	data := make([]byte, pp.Size)
+	var n int
+	var err error
+	res := drive.Call(10*time.Second, func() error {
+		n, err = conn.Write(data)
+		return err
+	})
+	if res.TimedOut {
+		return fmt.Sprintf("VIOL[c09-write-never-returns]: iat-mode 2, length table {%d}: Write(%d bytes) has not returned after 10 s without sleeping (%d wire writes so far)", pp.V, pp.Size, len(sink.lens))
+	}
+	if res.Panic != nil {
+		return fmt.Sprintf("VIOL[c09-write-panic]: iat-mode 2, length table {%d}: Write(%d bytes) panicked: %v", pp.V, pp.Size, res.Panic)
+	}
+	if err != nil || n != pp.Size {
+		return fmt.Sprintf("VIOL[c09-write-error]: iat-mode 2, length table {%d}: Write(%d) = %d, %v", pp.V, pp.Size, n, err)
+	}
+	want := pp.V
+	if want == 0 {
+		want = vfSeg
+	}
+	for _, l := range sink.lens {
+		if l != want {
+			return fmt.Sprintf("VIOL[c09-paranoid-write-size]: iat-mode 2, length table {%d}: Write(%d) produced a wire write of %d bytes (all writes: %v)", pp.V, pp.Size, l, sink.lens)
+		}
+	}
+	if pp.Size > 0 && sink.total < headerLength+pp.Size {
+		return fmt.Sprintf("VIOL[c09-paranoid-short]: iat-mode 2, length table {%d}: Write(%d) put only %d bytes on the wire", pp.V, pp.Size, sink.total)
+	}
+	if sink.total > pp.Size+headerLength+4*vfSeg+want*30 {
+		return fmt.Sprintf("VIOL[c09-unbounded-padding]: iat-mode 2, length table {%d}: Write(%d) put %d bytes on the wire", pp.V, pp.Size, sink.total)
+	}
+	return ""
+}
+
+func TestVerifC09ParanoidExhaustive(t *testing.T) {
+	vfSetup(t)
+	c := ev.For("C09")
+	c.Rule("paranoid-exhaustive: in-package connection in iat-mode 2 over a recording sink, its length distribution a one-entry table {v} (v = 0..1448, built through probdist.New from the stored seeds) and an all-zero delay distribution; one Write of n bytes for every n = 0..1427 (thorough: all 1449 x 1428 pairs; quick: every 9th n, offset rotating with the seed), which makes every reachable buffered tail meet every write length; oracle: Write returns without panic or error, every wire write is exactly v bytes (1448 for v = 0), at least the payload frame and a bounded amount are written")
+	seeds := vfSingleSeeds(t)
+	zero := vfZeroDelayDist()
+	key := detrand.Bytes(0xc09e, framing.KeyLength)
+	if rc := os.Getenv("VERIF_REPLAY_CASE"); rc != "" {
+		var pp vfParanoidPair
+		if err := json.Unmarshal([]byte(rc), &pp); err != nil {
+			t.Fatalf("bad replay case: %v", err)
+		}
+		if msg := vfParanoidPairRun(seeds, pp, zero, key); msg != "" && msg != "stale" {
+			t.Fatalf("%s", msg)
+		}
+		return
+	}
+	shard, nshards := ev.IntEnv("VERIF_SHARD", 0), ev.IntEnv("VERIF_NSHARDS", 1)
+	stride := 1
+	if !ev.Thorough() {
+		stride = 9
+	}
+	var count, stale int64
+	for v := 0; v <= vfSeg; v++ {
+		if v%nshards != shard {
+			continue
+		}
+		start := (v + ev.IntEnv("VERIF_SEED", 1)) % stride
+		for n := start; n <= maxPacketPayloadLength; n += stride {
+			pp := vfParanoidPair{v, n}
+			msg := vfParanoidPairRun(seeds, pp, zero, key)
+			if msg == "stale" {
+				stale++
+				break
+			}
+			if msg != "" {
+				js, _ := json.Marshal(pp)
+				fmt.Printf("VERIF-REPLAY-CASE: %s\n", js)
+				t.Fatalf("%s", msg)
+			}
+			count++
+		}
+	}
+	c.Bulk(count, count)
+	c.Class("paranoid-exhaustive-cases", count)
+	if stale > 0 {
+		c.Excluded("stored single-value seed no longer yields its table", stale)
+	}
+	if ev.Thorough() {
+		c.Subspace("iat-mode 2: one-entry table value 0..1448 x write size 0..1427", count)
+	}
+	c.Sample(ev.Hash("paranoid-ex", shard), map[string]any{"unit": "paranoid-exhaustive", "cases": count, "stride": stride, "example": vfParanoidPair{1431, 1391}})
 }
